@@ -72,7 +72,11 @@ def run(ctx):
         # Gradient: scalar f of any-shaped x
         shp = [(n,), (1, n), (n, 1)][k % 3]
         g = rng.normal(size=n)
-        G = nds.Gradient(lambda t, c=1.0: c * (np.dot(g, np.ravel(t)) + np.sum(np.ravel(t) ** 2)), method=method if not boxed else 'central')(x.reshape(shp), 3.0)
+        # (the extra factor reaches f positionally or by keyword, alternately)
+        if k % 2:
+            G = nds.Gradient(lambda t, c=1.0: c * (np.dot(g, np.ravel(t)) + np.sum(np.ravel(t) ** 2)), method=method if not boxed else 'central')(x.reshape(shp), 3.0)
+        else:
+            G = nds.Gradient(lambda t, c=1.0, d=0.0: c * (np.dot(g, np.ravel(t)) + np.sum(np.ravel(t) ** 2)) + d * np.sum(np.ravel(t)), method=method if not boxed else 'central')(x.reshape(shp), c=3.0, d=0.0)
         ctx.count(1, ('grad', n == 1))
         want_shape = () if n == 1 else (n,)
         if np.shape(G) != want_shape:
